@@ -1179,6 +1179,7 @@ func main() {
 	r := mon.Start("C01")
 	defer r.Finish()
 	if p := r.ReplayPath(); p != "" {
+		os.Setenv("VERIF_NO_EVIDENCE", "1") // a one-case replay must not replace the evidence of the last real run
 		replay(r, p)
 		return
 	}
